@@ -14,7 +14,6 @@ import (
 	"sync"
 	"time"
 
-	"github.com/k0kubun/pp"
 	"github.com/pkg/errors"
 	"github.com/xelaj/errs"
 
@@ -275,7 +274,9 @@ func (m *MTProto) startReadingResponses(ctx context.Context) {
 						m.warnError(errors.Wrap(err, "can't reconnect"))
 					}
 				default:
-					check(err)
+					// any message which can't be read or processed is a problem of this message only, not a
+					// reason to kill the whole process. warning and reading next one
+					m.warnError(err)
 				}
 			}
 		}
@@ -365,8 +366,6 @@ messageTypeSwitching:
 		// игнорим, пришло и пришло, че бубнить то
 
 	case *objects.BadMsgNotification:
-		pp.Println(message)
-		panic(message) // for debug, looks like this message is important
 		return BadMsgErrorFromNative(message)
 
 	case *objects.RpcResult:
